@@ -5,7 +5,7 @@
     of eager / jax.jit / constructor-jit / jax.disable_jit evaluation.  That clause is decided
     by correspondence only (vf/props/C19.py). *)
 From Coq Require Import List Bool Arith ZArith.
-From SV Require Import C19.Cache C19.TVNorm C19.Loss C19.Random C19.Defaults.
+From SV Require Import C19.Cache C19.TVNorm C19.Loss C19.Random C19.Defaults C19.SharedDefault.
 Import ListNotations.
 
 (** (1) Cache transparency, abstract.  For every object whose calls consult / refresh a keyed
@@ -63,9 +63,9 @@ Print Assumptions C19_tvnorm_rebuild_iff_shape_changes.
 Theorem C19_loss_history_keeps_original :
   forall (K X : Type) (kone : K) (kmul kdiv : K -> K -> K) (body : X -> K) (D : (X -> K) -> X -> X),
     (forall f g x, (forall z, f z = g z) -> D f x = D g x) ->
-    forall ops h l0 x, wf K kone h -> l0 < length h -> (forall o, In o ops -> ~ touches K l0 o) ->
+    forall ops h l0 x, Loss.wf K kone h -> l0 < length h -> (forall o, In o ops -> ~ touches K l0 o) ->
       let h' := Loss.run K kone kmul kdiv Real ops h in
-      wf K kone h' /\ obj K kone h' l0 = obj K kone h l0 /\
+      Loss.wf K kone h' /\ obj K kone h' l0 = obj K kone h l0 /\
       call_at K X kone kmul body h' l0 x = call_at K X kone kmul body h l0 x /\
       grad_at K X kone kmul body D h' l0 x = grad_at K X kone kmul body D h l0 x.
 Proof. exact history_keeps_original. Qed.
@@ -78,7 +78,7 @@ Theorem C19_loss_grad_of_rescaled :
     (forall f g x, (forall z, f z = g z) -> D f x = D g x) ->
     (forall c f x, D (fun z => kmul c (f z)) x = smul c (D f x)) ->
     (forall a b c, kmul a (kmul b c) = kmul (kmul a b) c) -> (forall a b, kmul a b = kmul b a) ->
-    forall h l c x, wf K kone h -> l < length h ->
+    forall h l c x, Loss.wf K kone h -> l < length h ->
       let '(h', n) := rescale K kone Real h l (kmul (scale_at K kone h l) c) in
       scale_at K kone h' n = kmul (scale_at K kone h l) c /\
       grad_at K X kone kmul body D h' n x = smul c (grad_at K X kone kmul body D h l x).
@@ -152,6 +152,19 @@ Theorem C19_no_write_to_protected :
 Proof. exact verdict_sound. Qed.
 Print Assumptions C19_no_write_to_protected.
 
+(** (5) Default helper objects evaluated per constructor call (PGM's default step-size policy
+    with its back-reference): for EVERY interleaving of constructions and steps of any solvers,
+    an existing solver keeps its own L and its policy reports its own L.  A shared (module-level
+    / default-argument) helper object does not satisfy this: SharedDefault.shared_interferes. *)
+Theorem C19_percall_default_no_interference :
+  forall (K : Type) (k0 : K) ops w, SharedDefault.wf K w ->
+    SharedDefault.wf K (SharedDefault.run K k0 PerCall ops w) /\
+    forall i, i < length (Ls K w) ->
+      nth i (Ls K (SharedDefault.run K k0 PerCall ops w)) k0 = nth i (Ls K w) k0 /\
+      update K k0 (SharedDefault.run K k0 PerCall ops w) i = nth i (Ls K w) k0.
+Proof. exact percall_no_interference. Qed.
+Print Assumptions C19_percall_default_no_interference.
+
 (** ---- non-vacuity ---- *)
 (* a history with changing shapes and dtypes through the fixed logic: rebuilds happen, results are fresh *)
 Example C19_tv_example :
@@ -166,7 +179,7 @@ Proof. vm_compute. repeat split. Qed.
 Example C19_loss_example :
   (forall f g x, (forall z, f z = g z) -> zD f x = zD g x) /\
   (forall c f x, zD (fun z => Z.mul c (f z)) x = Z.mul c (zD f x)) /\
-  wf Z 1%Z zheap0 /\
+  Loss.wf Z 1%Z zheap0 /\
   (let '(h', n) := rescale Z 1%Z Real zheap0 0 3%Z in zgrad h' n 0%Z = 3%Z /\ scale_at Z 1%Z h' 0 = 1%Z).
 Proof.
   split; [exact zD_ext|]. split; [exact zD_scale|]. split.
@@ -179,3 +192,11 @@ Qed.
 Example C19_defaults_example :
   verdict [0] [SCopy 1 0; SStore 1 0 2] = true /\ verdict [0] [SMove 1 0; SStore 1 0 2] = false.
 Proof. vm_compute. split; reflexivity. Qed.
+
+(* two solvers built with default policies, the first stepped afterwards: per-call defaults keep
+   L = 8, a shared default gives 20 *)
+Example C19_shared_default_example :
+  SharedDefault.wf Z (SharedDefault.empty Z) /\
+  Ls Z (SharedDefault.run Z 0%Z PerCall witness_ops (SharedDefault.empty Z)) = [8%Z; 20%Z] /\
+  Ls Z (SharedDefault.run Z 0%Z Shared witness_ops (SharedDefault.empty Z)) = [20%Z; 20%Z].
+Proof. split; [apply wf_empty|]. vm_compute. split; reflexivity. Qed.
